@@ -599,6 +599,15 @@ func (p *parentStreamReader[T]) peek(idx int) (t T, err error) {
 	// 2. Initialize the 'next' field of this cpStreamElement with an empty cpStreamElement,
 	//    similar to the initialization in copyStreamReaders.
 	elem.once.Do(func() {
+		defer func() {
+			// a panic of the source (a convert function) would leave this element marked as done but empty:
+			// record it as the element's item, so that every child sees the same error at this position
+			if panicErr := recover(); panicErr != nil {
+				elem.item = streamItem[T]{err: safe.NewPanicErr(panicErr, debug.Stack())}
+				elem.next = &cpStreamElement[T]{}
+			}
+		}()
+
 		t, err = p.sr.Recv()
 		elem.item = streamItem[T]{chunk: t, err: err}
 		if err != io.EOF {
